@@ -31,6 +31,12 @@ pub enum Shape {
     CycleStruct,
     CycleMixed,
     CycleClosure,
+    /// a vector used as a hash key and then made to contain the map
+    CycleHashKey,
+    /// a vector that is a member of a hash set and then made to contain the set
+    CycleSetMember,
+    /// a cycle through a hash map value
+    CycleHashValue,
 }
 
 pub const DEEP: &[Shape] = &[
@@ -49,7 +55,7 @@ pub const DEEP: &[Shape] = &[
     Shape::WideVector,
     Shape::WideHash,
 ];
-pub const CYCLIC: &[Shape] = &[Shape::CycleBox, Shape::CycleVector, Shape::CycleStruct, Shape::CycleMixed, Shape::CycleClosure];
+pub const CYCLIC: &[Shape] = &[Shape::CycleBox, Shape::CycleVector, Shape::CycleStruct, Shape::CycleMixed, Shape::CycleClosure, Shape::CycleHashKey, Shape::CycleSetMember, Shape::CycleHashValue];
 
 #[derive(Clone, Copy, Debug, Serialize, Deserialize, PartialEq)]
 pub enum Op {
@@ -58,11 +64,12 @@ pub enum Op {
     EqualDifferent,
     HashKey,
     Print,
+    PrintDisplay,
     SendToThread,
     CollectWhileAlive,
     StoreInContainers,
 }
-pub const OPS: &[Op] = &[Op::BuildAndDiscard, Op::EqualCopy, Op::EqualDifferent, Op::HashKey, Op::Print, Op::SendToThread, Op::CollectWhileAlive, Op::StoreInContainers];
+pub const OPS: &[Op] = &[Op::BuildAndDiscard, Op::EqualCopy, Op::EqualDifferent, Op::HashKey, Op::Print, Op::PrintDisplay, Op::SendToThread, Op::CollectWhileAlive, Op::StoreInContainers];
 
 #[derive(Clone, Debug, Serialize, Deserialize)]
 pub struct Case18 {
@@ -92,6 +99,9 @@ const PRELUDE: &str = r#"(struct node (next) #:mutable)
 (define (mk-cycle-struct n leaf) (let* ((first (node leaf)) (last (iter (- n 1) first (lambda (a) (node a))))) (set-node-next! first last) last))
 (define (mk-cycle-mixed n leaf) (let* ((first (box leaf)) (last (iter (- n 1) first (lambda (a) (if (even? (vector-length (vector a))) (node a) (vector (node (box a)))))))) (set-box! first last) last))
 (define (mk-cycle-closure n leaf) (let* ((cell (box leaf)) (f (lambda () (unbox cell)))) (set-box! cell f) f))
+(define (mk-cycle-hash-key n leaf) (let* ((k (vector leaf 2)) (h (hash k 'x))) (vector-set! k 0 h) h))
+(define (mk-cycle-set-member n leaf) (let* ((k (vector leaf 2)) (s (hashset k 5))) (vector-set! k 0 s) s))
+(define (mk-cycle-hash-value n leaf) (let* ((v (vector leaf 2)) (h (hash 'self v 'tag 7))) (vector-set! v 0 h) v))
 (define (to-str v) (let ((p (open-output-string))) (write v p) (string-length (get-output-string p))))"#;
 
 fn maker(s: Shape) -> &'static str {
@@ -115,6 +125,9 @@ fn maker(s: Shape) -> &'static str {
         Shape::CycleStruct => "mk-cycle-struct",
         Shape::CycleMixed => "mk-cycle-mixed",
         Shape::CycleClosure => "mk-cycle-closure",
+        Shape::CycleHashKey => "mk-cycle-hash-key",
+        Shape::CycleSetMember => "mk-cycle-set-member",
+        Shape::CycleHashValue => "mk-cycle-hash-value",
     }
 }
 
@@ -136,6 +149,7 @@ fn program(c: &Case18) -> (String, Option<String>) {
         ),
         Op::HashKey => (format!("(define v ({} {} 'leaf))\n(define h (hash v 1))\n(hash-length h)", mk, n), None),
         Op::Print => (format!("(define v ({} {} 'leaf))\n(> (to-str v) 0)", mk, n), None),
+        Op::PrintDisplay => (format!("(define v ({} {} 'leaf))\n(> (string-length (with-output-to-string (lambda () (display v)))) 0)", mk, n), None),
         Op::SendToThread => (format!("(define v ({} {} 'leaf))\n(define t (spawn-native-thread (lambda () (if v 'received 'no))))\n(thread-join! t)", mk, n), Some("y:\"received\"".into())),
         Op::CollectWhileAlive => (format!("(define v ({} {} 'leaf))\n(#%gc-collect)\n(define w ({} {} 'leaf2))\n(#%gc-collect)\n(if (and v w) 'alive 'no)", mk, n, mk, 100.min(n)), Some("y:\"alive\"".into())),
         Op::StoreInContainers => (format!("(define v ({} {} 'leaf))\n(define all (list (box v) (vector v v) (hash 'a v) (lambda () v) (list v v)))\n(length all)", mk, n), Some("i:5".into())),
@@ -155,6 +169,9 @@ pub fn check(ctx: &Ctx, ws: &mut Workers, c: &Case18, counting: bool) -> PropRes
         let key = format!("{:?}:{:?}", c.shape, c.op);
         match r.end {
             End::Done => {}
+            End::Oom if cyclic && c.n <= 64 && c.op == Op::Print => {
+                return Err(Failure::new(format!("c18:does-not-terminate:{}", key), format!("{}\nwriting a cycle of {} cells exhausted a 6 GB address space", shown, c.n)));
+            }
             End::Oom => {
                 if counting {
                     ctx.stats.inconclusive.fetch_add(1, std::sync::atomic::Ordering::Relaxed);
@@ -173,6 +190,9 @@ pub fn check(ctx: &Ctx, ws: &mut Workers, c: &Case18, counting: bool) -> PropRes
             }
             End::Signal(s) => {
                 let oom = r.stderr_tail.contains("memory allocation of");
+                if oom && cyclic && c.n <= 64 && (c.op == Op::Print || c.op == Op::PrintDisplay) {
+                    return Err(Failure::new(format!("c18:does-not-terminate:{}", key), format!("{}\nwriting a cycle of {} cells exhausted a 6 GB address space", shown, c.n)));
+                }
                 if oom {
                     if counting {
                         ctx.stats.inconclusive.fetch_add(1, std::sync::atomic::Ordering::Relaxed);
@@ -223,9 +243,9 @@ pub fn run(ctx: &Ctx, replay: Option<&str>) -> i32 {
     ctx.set_rule(
         "14 deep / wide shapes (long list, car-nested lists and pairs, cdr-nested pairs, nested immutable and mutable vectors, \
          hash maps nested through values and through keys, nested boxes and structs, a chain of closures, a long string, a wide \
-         vector and hash map) at sizes 10, 10^3, 10^4, 10^5 (thorough: 10^6) and 5 cyclic shapes (boxes, vectors, struct fields, \
-         a mix, a closure capturing itself through a box) with cycle lengths 1-64, each under 8 operations: build and discard \
-         with a collection, equal? with an equal copy and with a copy differing in the innermost leaf, use as a hash key, write \
+         vector and hash map) at sizes 10, 10^3, 10^4, 10^5 (thorough: 10^6) and 8 cyclic shapes (boxes, vectors, struct fields, \
+         a mix, a closure capturing itself through a box, cycles through a hash key, a set member and a hash value) with cycle lengths 1-64, each under 8 operations: build and discard \
+         with a collection, equal? with an equal copy and with a copy differing in the innermost leaf, use as a hash key, write and display \
          to a string port, hand to another native thread, collect while alive, store in five kinds of containers; JIT on/off. \
          Oracle: the engine process survives (a native stack overflow is a crash), the expected small result or an error value \
          comes back, operations on cycles of <=64 cells finish within 15 s. Out of memory and timeouts on large sizes are \
